@@ -141,7 +141,7 @@ prop("C03", ["contracts.c01_client", "contracts.c02_server", "contracts.c03_type
               "decode_raw is composed from the per-function contracts listed, the four segmented-transfer theorems (client against the "
               "conformant server model, server against the conformant client model) and the real-pair theorems (PairDownloadTheorem, "
               "PairExpedited, PairUploadTheorem, PairUploadSmall: real SdoClient + streams and real SdoServer joined by the inline bus "
-              "env/pairnet.py, only the node's get_data/set_data modelled by env/sdonode.py); the typed layer on top (encode_raw / "
+              "env/pairnet.py, only the node's get_data/set_data modelled by env/sdonode.py; StackRoundTrip: real LocalNode behind the server too, write then read back); the typed layer on top (encode_raw / "
               "decode_raw, SdoVariable) is composed by contract and exercised end to end by the bounded stand-in",
               "sequential execution (A4): inline delivery of responses"],
      not_decided=["the schedules half of the quantifier: responses delivered later by another thread, the threaded virtual bus, "
@@ -178,4 +178,4 @@ PROPS["C12"]["modules"].append("contracts.l12_blockdownload")
 PROPS["C12"]["contracts"] += ["BlockDownloadTheorem", "BlockDownloadLossTheorem"]
 for _p in ("C03",):
     PROPS[_p]["modules"].append("contracts.l03_pair")
-    PROPS[_p]["contracts"] += ["PairDownloadTheorem", "PairExpedited", "PairUploadTheorem", "PairUploadSmall"]
+    PROPS[_p]["contracts"] += ["PairDownloadTheorem", "PairExpedited", "PairUploadTheorem", "PairUploadSmall", "StackRoundTrip", "StackRoundTripSmall"]
